@@ -17,6 +17,7 @@ package c15
 import (
 	"encoding/json"
 	"fmt"
+	"math/big"
 	"os"
 	"strings"
 	"testing"
@@ -104,8 +105,12 @@ func mkQuote(s string, b bool) QuoteCase { return QuoteCase{S: vStr(s).S, Bytes:
 func checkQuote(c QuoteCase) error {
 	s := V{S: c.S}.text()
 	if !c.Bytes && !utf8.ValidString(s) {
-		vk.S.Discard()
-		vk.S.Class("quote/text-invalid-utf8 (outside the statement)")
+		// quoting is only claimed for valid UTF-8; "str of a string is the string itself" has no such condition
+		// (an ill-formed string arises from byte slicing, e.g. "h\u00e9"[:2])
+		if got, err := callStr("do_str", starlark.String(s)); err != nil || got != s {
+			return fmt.Errorf("str(s) of the ill-formed string %q gives %q, %v: want the string itself", s, got, err)
+		}
+		vk.S.Class("quote/text-invalid-utf8: str identity only")
 		return nil
 	}
 	kind := map[bool]string{false: "text", true: "bytes"}[c.Bytes]
@@ -521,6 +526,48 @@ func TestPropBoundaryNumbers(t *testing.T) {
 }
 
 // All list/dict/tuple graphs with <= 2 nodes and <= 2 edges per node (self loops, mutual references).
+// An integer next to strings and bytes that spell it (decimal, hex, octal, binary, with and without sign or prefix): in the
+// printed text these are different literals of different types, however alike their spellings are.
+func TestPropIntTextSiblings(t *testing.T) {
+	vk.S.SetExhaustive("int-next-to-its-own-spellings", true)
+	vk.Enum(t, subRound, func(yield func(RoundCase) bool) {
+		var ns []*big.Int
+		for _, k := range []uint{31, 32, 53, 63, 64, 65, 80, 128} {
+			for _, d := range []int64{-1, 0, 1} {
+				ns = append(ns, new(big.Int).Add(new(big.Int).Lsh(big.NewInt(1), k), big.NewInt(d)))
+			}
+		}
+		ten24, _ := new(big.Int).SetString("1000000000000000000000000", 10)
+		ns = append(ns, ten24, big.NewInt(0), big.NewInt(255), big.NewInt(493))
+		i := 0
+		for _, n := range ns {
+			for _, neg := range []bool{false, true} {
+				x := new(big.Int).Set(n)
+				if neg {
+					x.Neg(x)
+				}
+				i++
+				if !vk.Mine(i) {
+					continue
+				}
+				var sib []V
+				for _, base := range []int{10, 16, 8, 2, 36} {
+					txt := n.Text(base)
+					sib = append(sib, vStr(txt), vBytes(txt), vStr("-"+txt), vStr(strings.ToUpper(txt)))
+				}
+				sib = append(sib, vStr("0x"+n.Text(16)), vStr("0o"+n.Text(8)), vStr("0b"+n.Text(2)), vStr(x.String()), vFloat(1.5))
+				// the int first, last, and as a dict key / value beside its spellings
+				l1 := V{K: "list", E: append([]V{vInt(x)}, sib...)}
+				l2 := V{K: "tuple", E: append(append([]V{}, sib...), vInt(x), vInt(n))}
+				d := V{K: "dict", E: []V{vStr(n.Text(16)), vInt(x), vInt(x), vStr(n.Text(16)), vBytes(n.Text(10)), vInt(n)}}
+				if !yield(RoundCase{l1}) || !yield(RoundCase{l2}) || !yield(RoundCase{d}) {
+					return
+				}
+			}
+		}
+	})
+}
+
 func TestPropSmallGraphs(t *testing.T) {
 	vk.S.SetExhaustive("cyclic-all-graphs-2-nodes-2-edges", true)
 	kinds := []string{"list", "dict", "tuple"}
